@@ -120,6 +120,9 @@ func (n *AuthNode) Stop() {
 	n.W.S.Count("fault.node.restart")
 }
 
+// Start brings a stopped node back (fresh process: empty NTLM context table).
+func (n *AuthNode) Start() { n.start() }
+
 func (n *AuthNode) Restart() {
 	n.Stop()
 	n.start()
